@@ -132,6 +132,7 @@ pub enum Op {
     Sudo { contract: String, msg: String },
     Advance { secs: u64 },
     Fault { idx: u32 },
+    FaultNoData { idx: u32 },
     BankMint { addr: String, denom: String, #[serde(with = "u128s")] amount: u128 },
     NativeMint { addr: String, #[serde(with = "u128s")] amount: u128 },
     NativeBurn { addr: String, #[serde(with = "u128s")] amount: u128 },
@@ -164,6 +165,7 @@ impl Op {
             Op::Sudo { .. } => "sudo".into(),
             Op::Advance { .. } => "advance".into(),
             Op::Fault { .. } => "fault".into(),
+            Op::FaultNoData { .. } => "fault_nodata".into(),
             Op::BankMint { .. } => "bank_mint".into(),
             Op::NativeMint { .. } => "native_mint".into(),
             Op::NativeBurn { .. } => "native_burn".into(),
@@ -293,6 +295,10 @@ impl Sc {
             }
             Op::Fault { idx } => {
                 self.w.fault_submit = Some(*idx);
+                TxResult { ok: true, ..Default::default() }
+            }
+            Op::FaultNoData { idx } => {
+                self.w.fault_nodata = Some(*idx);
                 TxResult { ok: true, ..Default::default() }
             }
             Op::BankMint { addr, denom, amount } => {
